@@ -148,6 +148,27 @@ class Ctx:
                 "tier": self.tier,
             }
 
+    def guarded(self, name, fn, *args):
+        """Run a serial sub-check; an exception raised from inside the library under test becomes a
+        violation (the sub-check is abandoned), anything else is a harness error."""
+        try:
+            return fn(*args)
+        except HarnessError:
+            raise
+        except Exception as exc:  # noqa: BLE001
+            tb = traceback.extract_tb(exc.__traceback__)
+            frames = [fr for fr in tb if "/grid/" in fr.filename and "/vf/" not in fr.filename]
+            if not frames:
+                raise
+            fr = frames[-1]
+            where = f"{fr.filename.split('/')[-1]}:{fr.lineno}:{fr.name}"
+            self.count()
+            self.violation(f"{name}:unexpected-exception:{type(exc).__name__}:{where}",
+                           f"sub-check {name}: {type(exc).__name__}: {exc} (raised at {where})",
+                           {"route": "unexpected-exception", "sub": name},
+                           traceback=traceback.format_exc()[-1500:])
+            return None
+
     def merge(self, res):
         """Merge a worker result dict produced by ``WorkerResult.as_dict``."""
         self.evaluations += res.get("evaluations", 0)
